@@ -398,10 +398,9 @@ pub fn run_case(p: &Program, cfg: &Config, opts: &CaseOpts, rng: &mut Rng) -> Ca
                             if opts.attribute {
                                 let mut dcfg = opts.o1.clone().unwrap();
                                 dcfg.rmw_reads_mo_max_only = true;
-                                if let Some(all) = enumerate_walks(p, &dcfg, 200_000) {
-                                    if !all.outcomes.contains_key(out) {
-                                        known = Some("K5-rmw-reads-only-latest-store".to_string());
-                                    }
+                                let target = parse_outcome(p, out);
+                                if outcome_reachable(p, &dcfg, &target, 3_000_000) == Some(false) {
+                                    known = Some("K5-rmw-reads-only-latest-store".to_string());
                                 }
                             }
                             rep.violations.push(Violation {
@@ -442,10 +441,18 @@ pub fn run_case(p: &Program, cfg: &Config, opts: &CaseOpts, rng: &mut Rng) -> Ca
                     }),
                     Err(e) => {
                         if opts.o2 {
+                            let mut known = None;
+                            if opts.attribute {
+                                let mut dev = MachineCfg::may();
+                                dev.dev = Deviation { at_ignores_plain_stores: true };
+                                if replay_may(p, &h, &dev, true).is_ok() {
+                                    known = Some("K3-rmw-atomicity-vs-racing-store".to_string());
+                                }
+                            }
                             rep.violations.push(Violation {
                                 kind: "invalid_execution".into(),
                                 detail: format!("failing iteration {}: {}", run.iterations + 1, e),
-                                known: None,
+                                known,
                                 evidence: json!({"iteration": run.iterations + 1, "history": history_text(&h), "history_events": h}),
                             });
                         }
